@@ -229,6 +229,15 @@ func TestVerifC11Inject(t *testing.T) {
 		`{"resource":{"headers":{}},"big":9007199254740993,"small":3,"f":2.5}`,
 		` {"resource" : {"headers" : { } } , "ws" : "spaces" } `,
 		`{"resource":{"headers":{"Content-Type":"keep"}},"nested":{"resource":{"headers":{}}}}`,
+		// keys that are present with "empty-looking" values stay as they are
+		`{"resource":{"headers":{"X-Test":null}}}`,
+		`{"resource":{"headers":{"X-Test":""}}}`,
+		`{"resource":{"headers":{"X-Test":false,"Content-Type":0}}}`,
+		`{"resource":{"headers":{"X-Test":[],"Content-Type":{}}}}`,
+		`{"resource":{"headers":{"X-Test":null,"Content-Type":null,"X-Websocket-Shim-Version":null}}}`,
+		`{"resource":{"headers":null}}`,
+		`{"resource":null}`,
+		`null`,
 	}
 	hdrs := map[string]string{"X-Test": "injected", "Content-Type": "application/json", "X-Websocket-Shim-Version": "1"}
 	r, id := shim.open("ws://ignored/ws", "1")
